@@ -4,6 +4,7 @@ C11.a verification dominates emission in the replay driver; the file is written 
 C11.b writer/reader agreement of the log: keys, recorded id list, and "logged iff accepted and kept"
 C11.c (informational) unknown ids are passed through by id_to_asm_bytecode — protection is C11.a alone
 C11.d per-section block lists of the drivers are fresh
+C11.e the block comparison looks at every instruction
 """
 import ast
 
